@@ -4,6 +4,7 @@
   (tokenizer + parser) reads that text back as the same tree.
 -/
 import DDProofs.LexProofs
+import DDProofs.SatSupport
 open Std
 namespace DD
 
@@ -141,15 +142,33 @@ theorem teStr_not (a : Ast) : teStr (.not a) = "(~ " ++ teStr a ++ ")" := by
 def CacheOK (t : Tbl) (cache : HashMap Int String) : Prop :=
   ∀ k s, cache[k]? = some s → ∃ f a, toExprAstF f t k = .ok a ∧ TE a ∧ s = teStr a
 
-theorem toExprF_spec (t : Tbl) (hnames : ∀ (lvl : Nat) (v : String), t.l2v[lvl]? = some v → nameOk v) :
-    ∀ (f : Nat) (u : Int) (cache cache' : HashMap Int String) (s : String),
+/-- the variables that label the nodes of the diagram below `u` (the levels of the support of
+`u`, `namesBelow_of_support`) are NAME tokens and not reserved words -/
+def NamesBelow (t : Tbl) (u : Int) : Prop :=
+  ∀ v n, Reach t u.natAbs v → t.succ[v]? = some n → ∀ x, t.l2v[n.lvl]? = some x → nameOk x
+
+theorem NamesBelow.lo {t : Tbl} {u : Int} {n : Nd} (h : NamesBelow t u)
+    (hn : t.succ[u.natAbs]? = some n) : NamesBelow t n.lo :=
+  fun v n' hr => h v n' (Reach.lo hn hr)
+
+theorem NamesBelow.hi {t : Tbl} {u : Int} {n : Nd} (h : NamesBelow t u)
+    (hn : t.succ[u.natAbs]? = some n) : NamesBelow t n.hi :=
+  fun v n' hr => h v n' (Reach.hi hn hr)
+
+/-- all names lexable: in particular those below any `u` -/
+theorem NamesBelow.of_all {t : Tbl} (h : ∀ (lvl : Nat) (v : String), t.l2v[lvl]? = some v → nameOk v)
+    (u : Int) : NamesBelow t u :=
+  fun _ n _ _ x hx => h n.lvl x hx
+
+theorem toExprF_spec (t : Tbl) :
+    ∀ (f : Nat) (u : Int) (cache cache' : HashMap Int String) (s : String), NamesBelow t u →
     CacheOK t cache → toExprF f t u cache = .ok (s, cache') →
     CacheOK t cache' ∧ ∃ f' a, toExprAstF f' t u = .ok a ∧ TE a ∧ s = teStr a := by
   intro f
   induction f with
-  | zero => intro u cache cache' s _ h; simp [toExprF] at h
+  | zero => intro u cache cache' s _ _ h; simp [toExprF] at h
   | succ f ih =>
-    intro u cache cache' s hc h
+    intro u cache cache' s hnames hc h
     rw [toExprF] at h
     by_cases h1 : u = 1
     · simp only [h1, if_true, Except.ok.injEq, Prod.mk.injEq] at h
@@ -189,9 +208,9 @@ theorem toExprF_spec (t : Tbl) (hnames : ∀ (lvl : Nat) (v : String), t.l2v[lvl
                     obtain ⟨qs, c2⟩ := qr
                     simp only [hq, Except.ok.injEq, Prod.mk.injEq] at h
                     obtain ⟨hs, hcache⟩ : _ = s ∧ _ = cache' := h
-                    obtain ⟨hc1, fp, ap, hap, htp, rfl⟩ := ih _ _ _ _ hc hp
-                    obtain ⟨hc2, fq, aq, haq, htq, rfl⟩ := ih _ _ _ _ hc1 hq
-                    have hvar : nameOk var := hnames _ _ hv
+                    obtain ⟨hc1, fp, ap, hap, htp, rfl⟩ := ih _ _ _ _ (hnames.lo hn) hc hp
+                    obtain ⟨hc2, fq, aq, haq, htq, rfl⟩ := ih _ _ _ _ (hnames.hi hn) hc1 hq
+                    have hvar : nameOk var := hnames _ n (Reach.refl _) hn _ hv
                     -- the tree of u
                     let e : Ast := if ap = .bool false ∧ aq = .bool true then .var var else .ite (.var var) aq ap
                     let a : Ast := if u < 0 then .not e else e
@@ -268,9 +287,9 @@ theorem tokenize_teStr {a : Ast} (h : TE a) : tokenize (teStr a) = printG isNot 
 
 /-- the text written by `to_expr` is the text of the syntax tree that unfolds the diagram
 below `u` (`ite(var, high, low)`, a variable for `ite(var, TRUE, FALSE)`, `(~ …)` for a
-complemented reference), provided the variable names are NAME tokens -/
-theorem toExpr_spec (t : Tbl) (hnames : ∀ (lvl : Nat) (v : String), t.l2v[lvl]? = some v → nameOk v)
-    (u : Int) (s : String) (h : toExpr t u = .ok s) :
+complemented reference), provided the names of the variables BELOW `u` are NAME tokens -/
+theorem toExpr_spec (t : Tbl) (u : Int) (hnames : NamesBelow t u)
+    (s : String) (h : toExpr t u = .ok s) :
     ∃ f a, toExprAstF f t u = .ok a ∧ TE a ∧ s = teStr a := by
   unfold toExpr at h
   split at h
@@ -284,13 +303,25 @@ theorem toExpr_spec (t : Tbl) (hnames : ∀ (lvl : Nat) (v : String), t.l2v[lvl]
       have hc0 : CacheOK t ({} : HashMap Int String) := by
         intro k s1 hk
         simp at hk
-      exact (toExprF_spec t hnames _ _ _ _ _ hc0 hr).2
+      exact (toExprF_spec t _ _ _ _ _ hnames hc0 hr).2
+
+/-- the hypothesis of the round trip stated with `support`: the names of the levels of the
+support of `u` are NAME tokens (other declared variables may have any name) -/
+def lexableSupport (tb : Tbl) (u : Int) : Prop :=
+  ∀ ls, supportLevels tb u = .ok ls → ∀ lvl ∈ ls, ∀ v, tb.l2v[lvl]? = some v → nameOk v
+
+/-- the levels of the nodes below `u` are the levels of `support(u)` -/
+theorem namesBelow_of_support {t : Tbl} (hw : WFU t) {u : Int} (hm : t.Mem u)
+    (h : lexableSupport t u) : NamesBelow t u := by
+  obtain ⟨l, e, _, s⟩ := supportLevels_spec' hw u hm
+  intro v n hr hn x hx
+  exact h l e n.lvl ((s _).mpr ((dependsOn_iff_reach hw _ u hm).mpr ⟨v, n, hr, hn, rfl⟩)) x hx
 
 /-- `to_expr`, then the front end of `add_expr`: the tree of the diagram comes back -/
-theorem parse_toExpr (t : Tbl) (hnames : ∀ (lvl : Nat) (v : String), t.l2v[lvl]? = some v → nameOk v)
-    (u : Int) (s : String) (h : toExpr t u = .ok s) :
+theorem parse_toExpr (t : Tbl) (u : Int) (hnames : NamesBelow t u)
+    (s : String) (h : toExpr t u = .ok s) :
     ∃ f a, toExprAstF f t u = .ok a ∧ TE a ∧ parse (tokenize s) = some a := by
-  obtain ⟨f, a, ha, hte, rfl⟩ := toExpr_spec t hnames u s h
+  obtain ⟨f, a, ha, hte, rfl⟩ := toExpr_spec t u hnames s h
   exact ⟨f, a, ha, hte, by rw [tokenize_teStr hte, parse_printG isNot a (TE_wf hte)]⟩
 
 end DD
